@@ -15,7 +15,7 @@ IsBridge == host \in {"bridge_bin", "bridge_json"}
 
 TInit == CInit /\ table = [progs |-> <<>>, follow |-> <<>>, legacy |-> FALSE]
          /\ l = 1 /\ ph = "act" /\ lk = 0 /\ host = ""
-         /\ TLCSet(1, 1) /\ TLCSet(2, 0) /\ TLCSet(3, 0)
+         /\ TLCSet(1, 1) /\ TLCSet(2, 0) /\ TLCSet(3, 0) /\ TLCSet(4, 0)
 
 Reset ==
   /\ cmds' = (CORE :> CoreCmd) /\ tasks' = <<>> /\ ready' = {} /\ run' = NONE /\ reqs' = <<>>
@@ -115,6 +115,7 @@ Match ==
      ELSE /\ Line.effs = <<>> /\ Line.log = <<>>
           /\ UNCHANGED <<cvars, corevars>>
   /\ Line.xt = ExecTasks
+  /\ IF \E t \in Live(St) : FlatStuck(St, t) THEN TLCSet(4, TLCGet(4) + 1) ELSE TRUE
   /\ ("alive" \in DOMAIN Line) => Range(Line.alive) = ScriptTasksAlive
   /\ IsBridge => RegObs = RegOf(registry')
   /\ l' = l + 1 /\ ph' = "act" /\ UNCHANGED <<lk, host>>
@@ -126,7 +127,7 @@ Progress == IF l > TLCGet(1) THEN TLCSet(1, l) ELSE TRUE
 
 Accepted ==
   LET n == TLCGet(1) IN
-  /\ PrintT(<<"KFHITS", TLCGet(2), TLCGet(3)>>)
+  /\ PrintT(<<"KFHITS", TLCGet(2), TLCGet(3), TLCGet(4)>>)
   /\ IF n > Len(Rec) THEN TRUE
      ELSE /\ PrintT(<<"REJECTED_AT", n, Rec[n]>>)
           /\ FALSE
